@@ -48,6 +48,9 @@ FLOORS = {"fault_while_op_pending": 0.25}
 # fails authentication is NOT in this list: its InvalidTag leaves data_received as an exception and
 # only takes effect with connection_lost one turn later, so a user call in between legitimately wins.
 IMMEDIATE_F1 = [["reqenc"], ["garbage"], ["badproto"], ["discreq"]]
+# plaintext only: the bad indicator byte alone (a fragment shorter than a frame header; the rest never arrives) is
+# already the protocol violation -- the indicator is the first byte of a frame whatever follows
+PLAIN_FRAGMENT_F1 = [["reqenc:1"], ["garbage:1"], ["reqenc:2"], ["garbage:2"]]
 
 
 def _outcomes(obs) -> dict:
@@ -217,7 +220,7 @@ def _silence_case(draw, tier):
 
 def _first_cause_cases(tier):
     for noise in (False, True):
-        for f1f in IMMEDIATE_F1 + [["eof"]]:
+        for f1f in IMMEDIATE_F1 + [["eof"]] + ([] if noise else PLAIN_FRAGMENT_F1):
             if f1f == ["badmac"] and not noise:
                 continue
             for stage, t1, base in (
@@ -236,7 +239,7 @@ def _first_cause_cases(tier):
                     {"f2": [{"do": "force", "at": t1}]},
                     {"f2": [{"do": "disconnect", "at": t1 + 1}, {"do": "eof", "at": t1 + 1}]},
                 ]
-                if f1f != ["eof"]:
+                if f1f != ["eof"] and f1f not in PLAIN_FRAGMENT_F1:
                     f2s += [{"f2_trailer": tr} for tr in (["garbage"], ["reqenc"], ["discreq"], ["badproto"], ["state"], ["state", "garbage"])]
                 for extra in f2s:
                     yield {"kind": "first_cause", "stage": stage, "base": b, "f1": f1, **extra}
@@ -250,7 +253,7 @@ def _first_cause_cases(tier):
 @st.composite
 def _first_cause_random(draw, tier):
     noise = draw(st.booleans())
-    f1f = draw(st.sampled_from([f for f in IMMEDIATE_F1 if noise or f != ["badmac"]] + [["eof"]]))
+    f1f = draw(st.sampled_from([f for f in IMMEDIATE_F1 if noise or f != ["badmac"]] + [["eof"]] + ([] if noise else PLAIN_FRAGMENT_F1)))
     t1 = draw(st.one_of(st.integers(16, 40), st.integers(40, 600), st.sampled_from([2048 + 32, 2048 + 36, 2048 + 40])))
     base = {
         "noise": noise,
@@ -262,7 +265,7 @@ def _first_cause_random(draw, tier):
     }
     f1 = {"do": "eof", "at": t1} if f1f == ["eof"] else {"do": "chunk", "frames": f1f, "at": t1}
     case = {"kind": "first_cause", "stage": "random", "base": base, "f1": f1}
-    if f1f != ["eof"] and draw(st.booleans()):
+    if f1f != ["eof"] and f1f not in PLAIN_FRAGMENT_F1 and draw(st.booleans()):
         case["f2_trailer"] = draw(st.lists(st.sampled_from(["garbage", "reqenc", "discreq", "badproto", "state", "ping", "unknown"]), min_size=1, max_size=2))
     f2 = []
     for _ in range(draw(st.integers(0, 2))):
